@@ -103,6 +103,12 @@ class Cfg:
         """does the guard of the pinned source decide differently from the property's guard for species c"""
         return (c < -2 or c > self.crysNchem) != (c < -1 or c >= self.Nchem)
 
+    def guard_wrong_at(self, c):
+        """does the implementation treat species c differently from the property (probe on a fresh object, cached)"""
+        if not hasattr(self, "_probe"): self._probe = probe_guard(self)
+        r = self._probe.get(c)
+        return r is not None and r != ("accepted" if self.declared(c) else "rejected")
+
     def content(self, text):
         r = self.poscache.get(text)
         if r is None:
@@ -283,8 +289,9 @@ def evaluate(cfg, pre, op, post, code, problems):
 
 
 def vkey(cfg, op, cls):
-    """stable class key of a violation"""
-    if op[0] == "set" and cfg.guards_differ(op[2]): return "c28-setocc-guard"
+    """stable class key of a violation: failures at a setocc call whose species lies where the implementation's guard
+    (observed from outside) decides differently from the property's guard belong to the guard defect"""
+    if op[0] == "set" and cfg.guards_differ(op[2]) and cfg.guard_wrong_at(op[2]): return "c28-setocc-guard"
     return "c28-" + cls
 
 
